@@ -49,7 +49,12 @@ func NewFReader(fn string) FReader {
 	return FReader{r: r, b: b}
 }
 
-func (f FReader) read() (string, error) { return f.b.ReadString('\n') }
+// read returns the next line without its line break, like the readline based
+// reader: Loop puts exactly one line break between the lines of a statement.
+func (f FReader) read() (string, error) {
+	line, err := f.b.ReadString('\n')
+	return strings.TrimSuffix(line, "\n"), err
+}
 
 func (f FReader) Close() error { return f.r.Close() }
 
